@@ -1183,6 +1183,38 @@ func c11ComparatorKeys(c *Ctx, R string) {
 				}
 				return true
 			})
+			// the keys are combined lexicographically: a comparison that is not the last one is handed
+			// back only when it is not zero (cmp.Or, or `if c := …; c != 0 { return c }`), so every later
+			// key is consulted whenever the earlier ones are equal
+			{
+				pmC := parentMap(cmpLit.Body)
+				var lastStmt ast.Stmt
+				if l := cmpLit.Body.List; len(l) > 0 {
+					lastStmt = l[len(l)-1]
+				}
+				early := ""
+				inspectNoLit(cmpLit.Body, func(n ast.Node) bool {
+					r, ok := n.(*ast.ReturnStmt)
+					if !ok || ast.Stmt(r) == lastStmt || len(r.Results) != 1 {
+						return true
+					}
+					o := objOf(rinfo, r.Results[0])
+					nonZero := false
+					for _, g := range lexicalGuards(pmC, r, cmpLit.Body) {
+						if be, isBin := ast.Unparen(g.E).(*ast.BinaryExpr); isBin && o != nil && objOf(rinfo, be.X) == o {
+							if k, isC := constInt(rinfo, be.Y); isC && k == 0 && ((be.Op == token.NEQ && g.Truth) || (be.Op == token.EQL && !g.Truth)) {
+								nonZero = true
+							}
+						}
+					}
+					if !nonZero {
+						early = "`return " + exprStr(r.Results[0]) + "` at " + p.Pos(r.Pos())
+					}
+					return true
+				})
+				c.Check(early == "", R, "SortReports:comparator keys are combined lexicographically", cmpLit.Pos(), "early returns only of a non-zero comparison",
+					early+" hands back a comparison that may be zero before the remaining keys were looked at: reports equal up to there keep the order in which the workers delivered them, and everything rendered from that order (console output, the text of a comment shared by several problems) changes from run to run")
+			}
 			for _, k := range []string{".Path.Name", ".Problem.Lines.First", ".Problem.Lines.Last", ".Problem.Severity", ".Problem.Reporter", ".Problem.Summary", ".Problem.Diagnostics", ".Problem.Details"} {
 				c.Check(keys[k], R, "SortReports:comparator keys on"+k, cmpLit.Pos(), "compared on both operands", "the report order no longer depends on"+k+": reports differing only there keep their arrival order")
 			}
